@@ -335,6 +335,22 @@ func execC05(r *kernel.Run, s C05Spec) {
 				} else if !rs.Verify(pk, block) {
 					r.Violate("C05:valid-signature-rejected", map[string]any{"stage": "keyshare-randomized"}, "signature over a keyshare contribution no longer verifies after randomisation (keyshare contribution carried over: %v)", rs.KeyshareP != nil)
 				}
+				// the same contribution given by another representative (unreduced product, negative): whatever
+				// Verify accepts must still be accepted after randomisation
+				for name, rep := range map[string]*big.Int{"P+n": new(big.Int).Add(P, pk.N), "P-n": new(big.Int).Sub(P, pk.N)} {
+					su := &gabi.CLSignature{A: sk.A, E: sk.E, V: sk.V, KeyshareP: rep}
+					var ok1 bool
+					if p := guard(func() { ok1 = su.Verify(pk, block) }); p != "" || !ok1 {
+						r.Probe("unreduced-keyshare-contribution-not-accepted")
+						continue
+					}
+					ru, err := su.Randomize(pk)
+					if err != nil {
+						r.Violate("C05:cannot-randomize", det, "%v", err)
+					} else if !ru.Verify(pk, block) {
+						r.Violate("C05:valid-signature-rejected", map[string]any{"stage": "keyshare-randomized-unreduced"}, "signature over a keyshare contribution given as %s verifies, its randomised copy does not (contribution carried over: %v)", name, ru.KeyshareP != nil)
+					}
+				}
 				without := &gabi.CLSignature{A: sk.A, E: sk.E, V: sk.V}
 				must("keyshare:without-contribution", "component", without, key, block)
 				otherP := &gabi.CLSignature{A: sk.A, E: sk.E, V: sk.V, KeyshareP: new(big.Int).Mod(new(big.Int).Mul(P, pk.R[0]), pk.N)}
